@@ -81,6 +81,20 @@ def constructs():
     ]
     for name, args, ty in fn:
         out.append(("fn-" + name, ("call", re.sub(r"(-list|3|3-zero)$", "", name), (), tuple(args)), ty))
+    # list-typed arguments reached through chains of list-returning calls, depths from the size ladder
+    for d in (2, 3, 4, 5, 6, 9, 10, 17):
+        chain = LINT
+        for i in range(d):
+            chain = ("call", "concat", (), (chain, LINT)) if i % 3 == 0 else (
+                ("call", "substring", (), (chain, ("lit", "int", "1"))) if i % 3 == 1 else ("call", "concat", (), (LINT, chain)))
+        out.append(("list-chain-%d" % d, chain, "ListInt"))
+        out.append(("fn-length-list-chain-%d" % d, ("call", "length", (), (chain,)), "Int"))
+        out.append(("fn-indexof-list-chain-%d" % d, ("call", "indexof", (), (chain, LINT)), "Int"))
+        out.append(("fn-contains-list-chain-%d" % d, ("call", "contains", (), (chain, LINT)), "Bool"))
+        schain = S1
+        for i in range(d):
+            schain = ("call", "concat", (), (schain, ("lit", "str", "z%d" % i))) if i % 2 == 0 else ("call", "substring", (), (schain, ("lit", "int", "1")))
+        out.append(("fn-length-str-chain-%d" % d, ("call", "length", (), (schain,)), "Int"))
     out.append(("fn-geo.distance", ("call", "distance", ("geo",), (ident("loc"), GEO)), "Real"))
     out.append(("fn-geo.intersects", ("call", "intersects", ("geo",), (ident("loc"), GEO)), "Bool"))
     out.append(("fn-geo.length", ("call", "length", ("geo",), (ident("loc"),)), "Real"))
@@ -401,11 +415,15 @@ def classify(backend, t):
 
 
 def check_case(case):
+    if case.get("mode") == "depth":
+        return check_depth(case)
     t = from_json(case["term"])
     if case.get("mode") == "unknown-field":
         return check_unknown_field(case)
     if case.get("mode") == "identity":
         return check_identity(case)
+    if case.get("mode") == "depth":
+        return check_depth(case)
     r = classify(case["backend"], t)
     case["_outcome"] = r[0]
     if r[0] == "VIOLATION":
@@ -464,6 +482,66 @@ def check_identity(case):
     return None
 
 
+def list_chain(kind, d):
+    """A list-typed argument under d list-returning calls whose other operands are a field (type
+    unknown to inference) or a literal list."""
+    sib = ident("nums") if kind.startswith("field") else LINT
+    chain = LINT
+    for i in range(d):
+        chain = ("call", "substring", (), (chain, ("lit", "int", "1"))) if kind.endswith("substring") else \
+            ("call", "concat", (), (chain, sib))
+    return chain
+
+
+def _shape(r):
+    """What a backend did with a filter, up to nesting depth: refusal class, or the outermost SQL
+    function applied (CARDINALITY vs CHAR_LENGTH, SLICE vs SUBSTR, LIKE vs none)."""
+    if r[0] == "refused":
+        return ("refused", r[1])
+    if r[0] != "complete":
+        return (r[0], r[1])
+    sql = re.split(r"\sWHERE\s", r[1], maxsplit=1)[-1]
+    m = re.search(r"\b([A-Za-z_][A-Za-z_0-9]*)\s*\(", sql)
+    return ("complete", m.group(1).upper() if m else "", " LIKE " in sql.upper())
+
+
+def check_depth(case):
+    """Depth invariance: what a backend does with fn(<list-typed argument>) must not depend on how
+    many list-returning calls the list sits under (refused the same way, or translated with the
+    same outer SQL function)."""
+    fn, kind, d, backend = case["fn"], case["sibling"], case["d"], case["backend"]
+
+    def build(depth):
+        ch = list_chain(kind, depth)
+        if fn == "length":
+            return ("cmp", "eq", ("call", "length", (), (ch,)), ("lit", "int", "2"))
+        if fn == "indexof":
+            return ("cmp", "eq", ("call", "indexof", (), (ch, LINT)), ("lit", "int", "2"))
+        if fn == "substring":
+            return ("cmp", "eq", ("call", "length", (), (("call", "substring", (), (ch, ("lit", "int", "1"))),)), ("lit", "int", "2"))
+        return ("call", fn, (), (ch, ident("x1") if kind.startswith("field") else LINT))
+    r1, rd = classify(backend, build(1)), classify(backend, build(d))
+    case["_outcome"] = rd[0]
+    if rd[0] == "VIOLATION":
+        return ("%s:%s" % (backend, rd[1]), "%r on %s: %s" % (printer.render(build(d)), backend, rd[2]))
+    if r1[0] in ("setup", "skipped") or rd[0] in ("setup", "skipped", "known"):
+        return None
+    if _shape(r1) != _shape(rd):
+        return ("%s:list-argument-treated-differently-at-depth" % backend,
+                "%r -> %r but at depth %d %r -> %r" % (printer.render(build(1)), _shape(r1), d, printer.render(build(d))[:200], _shape(rd)))
+    return None
+
+
+def depth_cells():
+    for fn in ("length", "contains", "startswith", "endswith", "indexof", "substring", "hassubset"):
+        for kind in ("field-concat", "literal-concat", "literal-substring"):
+            for d in (2, 3, 4, 5, 6, 7, 9, 10, 17, 33):
+                for b in BACKENDS:
+                    if b == "roundtrip" or (kind.startswith("field") and b not in ("standard", "sqlite", "athena")):
+                        continue        # the ORM models have no list-typed column to stand next to the list
+                    yield {"mode": "depth", "fn": fn, "sibling": kind, "d": d, "backend": b}
+
+
 def replay(case):
     return check_case(dict(case))
 
@@ -503,6 +581,15 @@ def unknown_cells():
                             ("null-test", ("cmp", "eq", f, ("lit", "null", ""))),
                             ("under-not", ("un", "not", ("cmp", "eq", f, ("lit", "int", "1")))),
                             ("path-attr", ("cmp", "eq", ("path", ident("owner"), name), ("lit", "int", "1"))),
+                            ("path-mid-of-3", ("cmp", "eq", ("path", ("path", ident("owner"), name), "name"), ("lit", "str", "x"))),
+                            ("path-last-of-3", ("cmp", "eq", ("path", ("path", ident("owner"), "org"), name), ("lit", "int", "1"))),
+                            ("path-2nd-of-4", ("cmp", "eq", ("path", ("path", ("path", ident("owner"), name), "region"), "name"), ("lit", "str", "x"))),
+                            ("path-3rd-of-4", ("cmp", "eq", ("path", ("path", ("path", ident("owner"), "org"), name), "name"), ("lit", "str", "x"))),
+                            ("path-last-of-4", ("cmp", "eq", ("path", ("path", ("path", ident("owner"), "org"), "region"), name), ("lit", "int", "1"))),
+                            ("lambda-owner-mid", ("lambda", ("path", ("path", ident("owner"), name), "items"), "any", "p",
+                                                  ("cmp", "eq", ("path", ident("p"), "i1"), ("lit", "int", "1")))),
+                            ("lambda-body-mid-of-3", ("lambda", ident("tags"), "any", "p",
+                                                      ("cmp", "eq", ("path", ("path", ("path", ident("p"), "items"), name), "name"), ("lit", "str", "x")))),
                             ("lambda-body", ("lambda", ident("parts"), "any", "p", ("cmp", "eq", ("path", ident("p"), name), ("lit", "int", "1")))),
                             ("nested-lambda-body", ("lambda", ident("tags"), "any", "x", ("lambda", ("path", ident("x"), "items"), "all", "w",
                                                                                               ("cmp", "eq", ("path", ident("w"), name), ("lit", "int", "1")))))]:
@@ -562,7 +649,7 @@ def run_task(task, seed, acc):
 
     if task["kind"] == "matrix":
         idx = 0
-        for gen in (all_cells, unknown_cells, outer_field_cells, identity_cells):
+        for gen in (all_cells, unknown_cells, outer_field_cells, identity_cells, depth_cells):
             for case in gen():
                 idx += 1
                 if idx % task["k"] == task["i"]:
